@@ -379,8 +379,61 @@ def run(ctx):
     if ctx.index == ctx.nworkers - 1:
         suite_under_guard(ctx)
     if ctx.index == 0:
+        fresh_process_orders(ctx)
+    if ctx.index == 0:
         ctx.sample({"history_example": [opkey(ops, rng.choice(ops.ops)) for _ in range(8)], "threads": [4, 8, 16]})
         ctx.sample({"pool": [p[0] for p in pool]})
+
+
+def order_dump(order, out):
+    """child-process entry: build the pool, run every operation once in the given order, dump the results"""
+    import json
+    pool = make_pool()
+    ops = Ops(pool)
+    seq = list(ops.ops)
+    if order == "reverse":
+        seq.reverse()
+    elif order == "by-kind":
+        seq.sort(key=lambda op: (op[1], -op[0], op[3], op[2]))
+    res = {}
+    for op in seq:
+        res[opkey(ops, op)] = repr(ops.run(op))
+    with open(out, "w") as f:
+        json.dump(res, f)
+
+
+def fresh_process_orders(ctx):
+    """the same operations, each exactly once, in three fresh processes that differ only in the order of the calls (pool order,
+    reversed, grouped by kind): every result must be the same in all three - state that survives in the process (class-level
+    caches, module globals) shows up as a dependence on what ran before"""
+    import subprocess, json
+    tmp = tempfile.mkdtemp(prefix="rv-c17o-")
+    try:
+        results = {}
+        for order in ("forward", "reverse", "by-kind"):
+            out = os.path.join(tmp, order + ".json")
+            try:
+                p = subprocess.run([sys.executable, "-B", "-c", "from rv.checks import c17; c17.order_dump(%r, %r)" % (order, out)], env=dict(os.environ), stdout=subprocess.PIPE,
+                                   stderr=subprocess.STDOUT, timeout=600)
+            except subprocess.TimeoutExpired:
+                ctx.notes["fresh_process_orders"] = "timed out (not judged)"
+                return
+            if p.returncode != 0 or not os.path.exists(out):
+                ctx.inconclusive.append("fresh-process order run %r failed: %s" % (order, p.stdout.decode("utf8", "replace")[-300:]))
+                return
+            results[order] = json.load(open(out))
+        base = results["forward"]
+        ctx.count("fresh_process_order_ops_compared", len(base))
+        for order in ("reverse", "by-kind"):
+            for k, v in base.items():
+                ctx.ev()
+                if results[order].get(k) != v:
+                    ctx.violation("result-depends-on-history:process-order:" + k.split(".")[0].split("(")[0], "%s gives %s when the operations run in pool order and %s when they run %s (fresh process each)"
+                                  % (k, v[:200], str(results[order].get(k))[:200], order), {"op": k, "order": order})
+                    break
+        ctx.nontrivial("fresh-process-orders", len(base))
+    finally:
+        shutil.rmtree(tmp, ignore_errors=True)
 
 
 def suite_under_guard(ctx):
